@@ -664,6 +664,7 @@ func valueDependsOn(v, src ssa.Value, depth int) bool {
 }
 
 func c03Codes(c *Ctx) {
+	c03SentinelsWrapped(c)
 	sites := collectErrSites(c)
 	pds := map[*ssa.Function]*flow.PostDom{}
 	pdOf := func(fn *ssa.Function) *flow.PostDom {
@@ -1631,4 +1632,86 @@ func c03QueueAnswered(c *Ctx) {
 		})
 	}
 	c.R.Min("R-queue-answered", 1)
+}
+
+// c03SentinelsWrapped (R-code-class): where the class of a failure — and with it the JSON-RPC code — is decided by
+// errors.Is against a sentinel, an error that names that sentinel has to WRAP it: `fmt.Errorf("%v: …", ErrInvalidParams)`
+// prints the same text as `%w` but is no longer recognised, and the failure is answered with the default (internal) code.
+func c03SentinelsWrapped(c *Ctx) {
+	tested := map[*ssa.Global]*ssa.Function{}
+	for _, fn := range c.P.LibFns {
+		ir.EachCall(fn, func(call ssa.CallInstruction) {
+			if ir.CallName(call) != "errors.Is" || len(call.Common().Args) != 2 {
+				return
+			}
+			if u, ok := call.Common().Args[1].(*ssa.UnOp); ok {
+				if g, ok := u.X.(*ssa.Global); ok && g.Pkg != nil && strings.HasPrefix(g.Pkg.Pkg.Path(), ir.RootPath) {
+					if tested[g] == nil {
+						tested[g] = fn
+					}
+				}
+			}
+		})
+	}
+	n := 0
+	for _, fn := range c.P.LibFns {
+		cnt := 0
+		ir.EachInstr(fn, func(_ *ssa.BasicBlock, _ int, in ssa.Instruction) {
+			call, ok := in.(*ssa.Call)
+			if !ok || ir.CallName(call) != "fmt.Errorf" || len(call.Call.Args) < 2 {
+				return
+			}
+			format, ok := ir.ConstStr(call.Call.Args[0])
+			if !ok {
+				return
+			}
+			elems := variadicElems(call.Call.Args[1])
+			// verbs in order
+			var verbs []byte
+			for i := 0; i+1 < len(format); i++ {
+				if format[i] != '%' {
+					continue
+				}
+				j := i + 1
+				for j < len(format) && strings.IndexByte("+-# 0123456789.[]*", format[j]) >= 0 {
+					j++
+				}
+				if j < len(format) {
+					if format[j] != '%' {
+						verbs = append(verbs, format[j])
+					}
+					i = j
+				}
+			}
+			for i, e := range elems {
+				if e == nil {
+					continue
+				}
+				u, ok := ir.Unwrap(e).(*ssa.UnOp)
+				if !ok {
+					continue
+				}
+				g, ok := u.X.(*ssa.Global)
+				if !ok || tested[g] == nil {
+					continue
+				}
+				n++
+				cnt++
+				wrapped := i < len(verbs) && verbs[i] == 'w'
+				c.R.Check(wrapped, "R-code-class", sprintf("sentinel %s named by an error built in %s #%d", g.Name(), fname(fn), cnt), c.Pos(call.Pos()),
+					"the sentinel is wrapped with %w, so errors.Is recognises the failure's class",
+					sprintf("%s builds an error that prints %s with %%%c instead of wrapping it with %%w, while %s decides the failure's class (and JSON-RPC code) by errors.Is(err, %s): this failure is answered with the code of the default class", fname(fn), g.Name(), verbAt(verbs, i), fname(tested[g]), g.Name()))
+			}
+		})
+	}
+	if n == 0 {
+		c.R.Hold("R-code-class", "no error names a sentinel that a classifier tests with errors.Is without wrapping it", "", sprintf("%d sentinel(s) tested with errors.Is in the library", len(tested)))
+	}
+}
+
+func verbAt(verbs []byte, i int) byte {
+	if i < len(verbs) {
+		return verbs[i]
+	}
+	return '?'
 }
